@@ -1,7 +1,7 @@
 SPECIFICATION Spec
 CONSTANTS
   K = 1
-  Variant = "minst_order"
+  Variant = {"minst_order"}
   Emit = FALSE
 INVARIANTS ImplValid ImplHeaders ImplReqOk
 CHECK_DEADLOCK FALSE
